@@ -54,13 +54,27 @@ pub fn skel_bounds(tier: Tier) -> SkelBounds {
         Tier::Thorough => SkelBounds {
             max_groups: 4,
             max_attrs: 2,
-            max_set: 4,
+            max_set: 3,
             max_members: 2,
-            max_depth: 4,
-            budget: 5,
+            max_depth: 3,
+            budget: 4,
             op_first: true,
             header: Some(0),
         },
+    }
+}
+
+/// thorough only: deeper value structure inside a single operation group
+pub fn value_bounds() -> SkelBounds {
+    SkelBounds {
+        max_groups: 1,
+        max_attrs: 2,
+        max_set: 4,
+        max_members: 3,
+        max_depth: 4,
+        budget: 6,
+        op_first: true,
+        header: Some(1),
     }
 }
 
@@ -113,6 +127,15 @@ pub fn produce(tier: Tier, emit: &mut dyn FnMut(Case)) {
             payload_kind: 0,
         });
     });
+    if tier == Tier::Thorough {
+        for_each_skel(value_bounds(), |_, m| {
+            emit(Case {
+                kind: "skel-values",
+                msg: m,
+                payload_kind: 0,
+            });
+        });
+    }
     // (A') every header variant x every small payload kind over the skeleton space of budget 2 (3 thorough)
     let mut small = skel_bounds(tier);
     small.budget = tier.pick(2, 3);
